@@ -151,14 +151,20 @@ func (w *World) execArray(st *Step) *Violation {
 	if st.Op == "a.oob" {
 		idx := n + st.OOB
 		var err error
+		// the value of a rejected set/insert may be one whose Storable() has side effects (a string too
+		// large to inline is moved to its own slab): a request rejected for its index must not get that far
+		var val atree.Value = U64(1)
+		if mv, ok := scalarOf(st.V); ok {
+			val, _ = scalarValueOf(mv)
+		}
 		switch st.Sub {
 		case "get":
 			_, err = a.Get(idx)
 		case "set":
-			_, err = a.Set(idx, U64(1))
+			_, err = a.Set(idx, val)
 		case "insert":
 			idx++
-			err = a.Insert(idx, U64(1))
+			err = a.Insert(idx, val)
 		case "remove":
 			_, err = a.Remove(idx)
 		default:
